@@ -84,6 +84,23 @@ func patchBadger(dir string) {
 		}
 		patched = strings.Replace(patched, head, head+"\tif h := VerifHook; h != nil {\n\t\th(\"badger."+strings.ToLower(fn)+"\", \"\")\n\t}\n", 1)
 	}
+	// the writer yields before a batch of commits is written to the value log
+	dbpath := filepath.Join(dir, "db.go")
+	dbsrc, err := os.ReadFile(dbpath)
+	if err != nil {
+		fmt.Fprintln(os.Stderr, "autoyield:", err)
+		os.Exit(1)
+	}
+	whead := "func (db *DB) writeRequests(reqs []*request) error {\n\tif len(reqs) == 0 {\n\t\treturn nil\n\t}\n"
+	if strings.Count(string(dbsrc), whead) != 1 {
+		fmt.Fprintln(os.Stderr, "autoyield: DB.writeRequests of badger does not have the expected shape")
+		os.Exit(1)
+	}
+	dbpatched := strings.Replace(string(dbsrc), whead, whead+"\tif h := VerifHook; h != nil {\n\t\th(\"badger.write\", \"\")\n\t}\n", 1)
+	if err := os.WriteFile(dbpath, []byte(dbpatched), 0o644); err != nil {
+		fmt.Fprintln(os.Stderr, "autoyield:", err)
+		os.Exit(1)
+	}
 	hook := "package badger\n\n// VerifHook, when set, is called by DB.Update between the user's function and\n// the commit (deterministic simulator only; this file exists only in the\n// scratch copy the simulator is built from).\nvar VerifHook func(point, arg string)\n\n// VerifCommitFault, when set, is asked before every commit of DB.Update; a\n// non-nil error is returned to the caller instead of committing (a disk\n// that refuses the write).\nvar VerifCommitFault func() error\n"
 	if err := os.WriteFile(path, []byte(patched), 0o644); err == nil {
 		err = os.WriteFile(filepath.Join(dir, "verif_hook.go"), []byte(hook), 0o644)
@@ -92,7 +109,7 @@ func patchBadger(dir string) {
 		fmt.Fprintln(os.Stderr, "autoyield:", err)
 		os.Exit(1)
 	}
-	fmt.Println("autoyield: badger DB.View and DB.Update yield before the transaction starts, DB.Update before commit")
+	fmt.Println("autoyield: badger DB.View and DB.Update yield before the transaction starts, DB.Update before commit, the writer before a batch is written")
 }
 
 func main() {
